@@ -351,7 +351,10 @@ class Torrent():
                                    basepath=(relpath_with_parent(basepath)
                                              if basepath is not None else None),
                                    exclude=exclude, include=include,
-                                   hidden=False, empty=False)
+                                   hidden=False)
+        # Exclude empty files by their known size; filter_files() would look up
+        # the relative path in the current working directory
+        files = [f for f in files if f.size > 0]
 
         info = self.metainfo['info']
         if not files or all(f.size <= 0 for f in files):
